@@ -90,6 +90,10 @@ func isByteSlice(t types.Type) bool {
 }
 
 func namedString(t types.Type) string {
+	if t == nil {
+		return ""
+	}
+	t = types.Unalias(t)
 	if n, ok := t.(*types.Named); ok {
 		if n.Obj().Pkg() != nil {
 			return n.Obj().Pkg().Path() + "." + n.Obj().Name()
